@@ -164,7 +164,7 @@ func RunWorkers(n, w int, args []string, memLimit uint64, caseTimeout time.Durat
 				}
 				werr := cmd.Wait()
 				if cur >= 0 {
-					info := fmt.Sprintf("worker exit: %v; stderr tail: %s", werr, tail(stderr.String(), 1500))
+					info := fmt.Sprintf("worker exit: %v; stderr head: %s ... tail: %s", werr, head(stderr.String(), 400), tail(stderr.String(), 300))
 					if timedOut {
 						info = "timeout: " + info
 					}
@@ -184,6 +184,13 @@ func RunWorkers(n, w int, args []string, memLimit uint64, caseTimeout time.Durat
 		}(k)
 	}
 	wg.Wait()
+}
+
+func head(s string, n int) string {
+	if len(s) > n {
+		return s[:n]
+	}
+	return s
 }
 
 func tail(s string, n int) string {
